@@ -633,6 +633,12 @@ let suite_stage t v =
           if fresh = [] then false else reach fresh (seen @ fresh) (steps - 1) in
     reach [n] [n] 50 in
   let last_snap = ref None in
+  (* validated (held) copies the implementation showed at some point: (name, md5) *)
+  let all_prevs : (string * string, string) Hashtbl.t = Hashtbl.create 8 in    (* every predecessor any part of (name, hash) announced *)
+  let held_seen : (string * string) list ref = ref [] in
+  let tampered : string list ref = ref [] in
+  let note_held (sn : snap) =
+    List.iter (fun (n, e, _, m) -> if e = "wait" && not (List.mem (n, m) !held_seen) then held_seen := (n, m) :: !held_seen) sn.sfiles in
   let restarted_since_log = ref false in
   ignore restarted_since_log;
   let debug = (try Sys.getenv "MODELRUN_DEBUG" <> "" with Not_found -> false) in
@@ -687,6 +693,7 @@ let suite_stage t v =
     List.iter (fun (n, _, _, _, h, ps) ->
       let w = Hashtbl.find_all written (n, h) in
       if not (M.subset_b ps w) then oracle v "companion_claims_unwritten" false) isn.scmps;
+    note_held isn;
     last_snap := Some isn in
   List.iter (fun op ->
     if not !stop then begin
@@ -708,6 +715,7 @@ let suite_stage t v =
               on its way: what a late duplicate says after the version has been put away orders nothing *)
            if not (List.exists (fun r -> M.name_eqb r.M.l_name p.M.p_name && M.name_eqb r.M.l_hash p.M.p_hash) !st.M.rlog) then
              Hashtbl.replace ann_prev (ns, hs) (string_of_name p.M.p_prev);
+           Hashtbl.add all_prevs (ns, hs) (string_of_name p.M.p_prev);
            (* Receive first has the receive log read back to the file's time (clamped as in Received()) *)
            let monthago = M.Z.sub now (z_of_int (30 * 86400)) in
            let whn = if M.Z.ltb now p.M.p_time then now else if M.Z.ltb p.M.p_time monthago then monthago else p.M.p_time in
@@ -904,7 +912,8 @@ let suite_stage t v =
            let mc = List.sort compare (List.map (fun (nm, o) ->
              (string_of_name nm, int_of_z (List.nth !st.M.heap (int_of_nat o)).M.f_state)) !st.M.cache) in
            if List.sort compare ic <> mc then diff v (Printf.sprintf "cache@%d" k)
-       | `TM (n, e, d) -> ignore (next t); st := fst (M.sstep md5_name !st (M.OTamper (n, e, d))));
+       | `TM (n, e, d) -> ignore (next t); tampered := string_of_name n :: !tampered;
+           st := fst (M.sstep md5_name !st (M.OTamper (n, e, d))));
       if v.diffs <> [] then stop := true
     end else begin
       (* the model and the implementation have diverged: the model's state is no longer a prediction of
@@ -913,13 +922,15 @@ let suite_stage t v =
       let k = !idx in incr idx;
       ignore k;
       (match op with
-       | `PR _ | `AG _ | `AA _ | `TM _ | `VH | `IM _ -> ignore (next t)
+       | `TM (n, _, _) -> tampered := string_of_name n :: !tampered; ignore (next t)
+       | `PR _ | `AG _ | `AA _ | `VH | `IM _ -> ignore (next t)
        | `RC (p, _, _) ->
            ignore (nb t);
            let ns = string_of_name p.M.p_name and hs = string_of_name p.M.p_hash in
            if not (List.mem hs (Hashtbl.find_all announced ns)) then Hashtbl.add announced ns hs;
            let logged_already = (match !last_snap with
              | Some sn -> List.exists (fun (ln, _, lh, _) -> ln = ns && lh = hs) sn.slog | None -> false) in
+           Hashtbl.add all_prevs (ns, hs) (string_of_name p.M.p_prev);
            if not logged_already then Hashtbl.replace ann_prev (ns, hs) (string_of_name p.M.p_prev)
        | `ST | `TF | `RS | `CL | `VR ->
            (match op with `CL -> cleaned_after_div := true | `RS -> ignore (nz t) | _ -> ());
@@ -941,6 +952,7 @@ let suite_stage t v =
              if not (Filename.check_suffix tn ".lck") then
              let ok = List.exists (fun (n, r, h, _) -> (if r = "" then n else r) = tn && List.mem h (Hashtbl.find_all announced n) && h = m) isn.slog in
              if not ok then oracle v "delivered_content_not_validated" false) isn.sfinals;
+           note_held isn;
            last_snap := Some isn
        | `RQ _ -> ignore (nz t)
        | `SQ (n, _, h) ->
@@ -957,6 +969,28 @@ let suite_stage t v =
        | `CC -> let n = ni t in ignore (times n (fun () -> let nm = next t in let stt = next t in (nm, stt))))
     end) ops;
   (* C06: end of the resumption after a crash *)
+  (* C06 / C01: a validated copy that was held at some point is, at the end, still held or logged and put away
+     as that version - through cleaning runs and restarts (implementation-only; not judged for names that had
+     several versions announced or whose staged body the history tampered with) *)
+  (match !last_snap with
+   | Some fin ->
+       List.iter (fun (n, m) ->
+         let still = List.exists (fun (fn, e, _, fm) -> fn = n && e = "wait" && fm = m) fin.sfiles in
+         let logged = List.exists (fun (ln, _, lh, _) -> ln = n && lh = m) fin.slog in
+         let several = List.length (Hashtbl.find_all announced n) > 1 in
+         if not (still || logged || several || List.mem n !tampered) then oracle v "validated_held_file_lost" false;
+         (* ... and it is not left behind for good: at the end of the history (everything settled) a copy that
+            is still held is waiting for a predecessor that has NOT been delivered *)
+         if still && not several && not (List.mem n !tampered) then begin
+           (* (parts of one version may announce different predecessors; the one that counts is the completing
+              part's: judged only when they all agree) *)
+           match Hashtbl.find_opt ann_prev (n, m) with
+           | Some pv when pv <> "" && pv <> n && List.for_all (fun x -> x = pv) (Hashtbl.find_all all_prevs (n, m)) ->
+               if List.exists (fun (ln, _, _, _) -> ln = pv) fin.slog && not !vhold then
+                 oracle v "held_file_left_behind_although_predecessor_delivered" false
+           | _ -> ()
+         end) !held_seen
+   | None -> ());
   (match !crash_image, !last_snap with
    | Some (ann, img), Some fin ->
        List.iter (fun (n, h, _, _, rn) ->
@@ -1716,6 +1750,19 @@ let suite_partials t v =
   v.cls <- "D";
   v.nontrivial <- mode <> 0 || nstaged > 0
 
+(* ---- suite MV : fileutil.Move / Copy put a file away byte for byte (C01; implementation-only oracles) ---- *)
+let suite_move t v =
+  let size = ni t in let pattern = ni t in let mode = ni t in
+  expect t "=";
+  let err = ni t in let dstsize = ni t in let same = ni t in let gone = ni t in
+  if err <> 0 then diff v "move-failed"
+  else begin
+    if same <> 1 || dstsize <> size then oracle v "file_put_away_differs_from_the_validated_bytes" false;
+    if mode <> 2 && gone <> 1 then oracle v "moved_file_left_behind" false
+  end;
+  v.cls <- "D";
+  v.nontrivial <- size > 8192 && pattern > 0
+
 (* ---- suite FI : finish(): one poll answer, the cache entry and the source file (C02) ---- *)
 let suite_finish t v =
   let code = ni t in let ci = ni t in let pi = ni t in
@@ -1954,6 +2001,7 @@ let run_line line =
       | "FI" -> suite_finish t v
       | "RD" -> suite_redeliver t v
       | "RP" -> suite_partials t v
+      | "MV" -> suite_move t v
       | "P" -> suite_prune t v
       | "CA" -> suite_cache t v
       | "TK" -> suite_track t v
